@@ -742,6 +742,7 @@ class World:
         self._check_dispatch()
         self._check_wire_parse()
         self._check_passive_decode()
+        self._check_shared_rsa_decoder()
         self._check_liveness()
 
     def _check_clients(self):
@@ -880,6 +881,8 @@ class World:
         out["aes_rand"] = C2Http(self.bconfig, aes_rand=aes_rand)
         out["aes_hmac"] = C2Http(self.bconfig, aes_key=aes_key, hmac_key=hmac_key)
         out["aes_noverify"] = C2Http(self.bconfig, aes_key=aes_key, verify_hmac=False)
+        # the RSA key together with partial symmetric material: whatever is missing has to come from the first check-in
+        out["rsa+aes_key"] = C2Http(self.bconfig, aes_key=aes_key, rsa_private_key=self.priv)
         # two more observers with full keys that see the same messages differently (routing is by verb + URI only, and a
         # keyed decoder needs no earlier message): one whose capture has task responses arriving late (overlapping
         # connections: GET, POST, POST response, then the GET's response), one whose capture starts in mid-session
@@ -968,7 +971,7 @@ class World:
                         continue
                     truth = rec.truth
                     if rec.kind == "get_req":
-                        if vname != "rsa":
+                        if not vname.startswith("rsa"):
                             want = []
                         else:
                             want = truth
@@ -985,8 +988,8 @@ class World:
                                          f"corrupted {rec.kind} decoded by {vname} to {got!r:.300}, original {want!r:.300}")
                         continue
                     if exc is not None:
-                        if vname == "rsa" and not seen_checkin and isinstance(exc, ValueError) and rec.kind != "get_req":
-                            continue  # RSA-only decoder has no keys before the first check-in
+                        if vname.startswith("rsa") and not seen_checkin and isinstance(exc, ValueError) and rec.kind != "get_req":
+                            continue  # a decoder that depends on the RSA key has no (complete) keys before the first check-in
                         self.violate("C07", "decoder_raised", vname, rec.kind, type(exc).__name__, _term_sig(self.cfg, rec.kind),
                                      f"decoder {vname} raised {type(exc).__name__}: {exc!r:.300} on an intact {rec.kind} of client {kk}; "
                                      f"programs get={self.cfg['get']} post={self.cfg['post']} server={self.cfg['server']}")
@@ -995,6 +998,50 @@ class World:
                         self.violate("C07", "decoded_packets_differ", vname, rec.kind, _term_sig(self.cfg, rec.kind),
                                      f"decoder {vname} on {rec.kind} of client {kk}: got {_show(got)!r:.400} want {want!r:.400}")
                         break
+
+    def _check_shared_rsa_decoder(self):
+        """ONE decoder holding only the RSA key sees the traffic of all beacons: it follows the session of the beacon that
+        checked in first (documented: other sessions need keys=), whose packets must keep decoding whatever other beacons
+        do in between; every beacon's check-in still yields its metadata."""
+        from dissect.cobaltstrike.c2 import C2Http, HttpResponse, parse_raw_http
+        withkeys = [kk for kk, st in self.clients.items() if st["keys"]]
+        if len(withkeys) < 2:
+            return
+        first = next((r.client for r in self.tap if r.kind == "get_req" and not r.corrupted and r.client in withkeys), None)
+        if first is None:
+            return
+        self.res.probes["shared_rsa_decoder"] += 1
+        dec = C2Http(self.bconfig, rsa_private_key=self.priv)
+        submit_verb = self.cfg["verb_post"].encode()
+        seen = False
+        for idx, rec in enumerate(self.tap):
+            if rec.client is None or rec.kind in ("err_resp", "noise_resp", "post_resp", "unknown_req"):
+                continue
+            if rec.corrupted or (rec.req_index is not None and self.tap[rec.req_index].corrupted):
+                continue
+            try:
+                got = list(dec.iter_recover_http(rec.wire))
+                exc = None
+            except Exception as e:  # noqa: BLE001
+                got, exc = None, e
+            self.res.log.log("shared_decode", rec.client, idx, rec.kind, type(exc).__name__ if exc else len(got))
+            if rec.kind == "get_req":
+                if exc is not None or not _same_packets(got, rec.truth):
+                    self.violate("C07", "shared_rsa_decoder", "checkin_not_decoded",
+                                 f"a decoder with the RSA key only, fed the traffic of {len(withkeys)} beacons, on the check-in of "
+                                 f"client {rec.client}: {exc!r:.200} / {_show(got) if got is not None else None!r:.200}, want {rec.truth!r:.200}")
+                    return
+                if rec.client == first:
+                    seen = True
+                continue
+            if rec.client != first or not seen:
+                continue
+            if exc is not None or not _same_packets(got, rec.truth):
+                self.violate("C07", "shared_rsa_decoder", "first_session_lost", rec.kind,
+                             f"a decoder with the RSA key only follows the beacon that checked in first (client {first}); after other "
+                             f"beacons' check-ins its {rec.kind} no longer decodes: {exc!r:.200} / "
+                             f"{_show(got) if got is not None else None!r:.200}, want {rec.truth!r:.200}")
+                return
 
     def _check_liveness(self):
         lim = self.plan["limits"]
